@@ -62,4 +62,7 @@ class BagOfHypotheses:
         return 0.0  # Transcript not found in the bag of hypotheses
 
     def best_hyp(self):
-        return max(self._hyps, key=lambda hyp: hyp.vis_sc + (hyp.lm_sc if hyp.lm_sc is not None else 0)).transcript
+        # rank by the same (LM-weighted) total score that posteriors() and confidence() are computed from
+        total_scores = self.total_scores()
+        best_idx = max(range(len(total_scores)), key=lambda i: total_scores[i])
+        return self._hyps[best_idx].transcript
